@@ -1,10 +1,87 @@
 import Dmn.Model.Sexp
+import Dmn.Model.DecWire
+import Dmn.Model.DecString
+import Dmn.Model.DecSpec
 
-/-! Driver handler for C07 — not implemented yet. -/
+/-! Driver handler for C07.
+
+* `(c07 num <neg> <coeff> <exp>)` →
+  `(num (s sci) P isPlain valueOk jsonOk readback)`: the model of `decQuadToString`, of
+  `Display` (`P` = `(s …)` or `panic`) and the specification's verdicts on that text;
+* `(c07 judge <neg> <coeff> <exp> (s text))` → `(judge isPlain valueOk jsonOk readback)`:
+  the specification applied to an arbitrary text (the implementation's);
+* `(c07 parse (s text))` → `(parse R P)`: model of `decQuadFromString` and of the `Display` of
+  the result;
+* `(c07 literal (s before) (s after))` → `(literal R exact sig34)`: model of `build_numeric`,
+  whether the result denotes exactly the digits written, whether there are ≤ 34 significant
+  digits. -/
 
 namespace Dmn.Driver.C07
-open Dmn
+open Dmn Dmn.D128 Dmn.DecWire
 
-def handle (_args : List Sexp) : String := "(error not-implemented)"
+def readback (t : List Char) (d : D128) : String :=
+  match ofString t with
+  | .fin d' => if SameValue d' d then "eq" else "ne"
+  | _ => "err"
+
+def verdicts (t : List Char) (d : D128) : String :=
+  let v := match plainValue t with
+    | some v => denotes v d
+    | none => false
+  s!"{boolStr (isPlain t)} {boolStr v} {boolStr (isJsonNumber t)} {readback t d}"
+
+/-- run-length groups of a text -/
+def runs : List Char → List (Char × Nat)
+  | [] => []
+  | c :: cs =>
+    match runs cs with
+    | (c', n) :: rest => if c = c' then (c, n + 1) :: rest else (c, 1) :: (c', n) :: rest
+    | [] => [(c, 1)]
+
+/-- Text in answers: `(s cp …)` where a run of four or more equal characters is written
+`(r cp count)` (plain renderings are mostly zeros, up to 6 000 of them). -/
+def encText (t : List Char) : String :=
+  let items := (runs t).map (fun (c, n) =>
+    if n ≥ 4 then s!"(r {c.toNat} {n})" else " ".intercalate (List.replicate n (toString c.toNat)))
+  "(" ++ " ".intercalate ("s" :: items) ++ ")"
+
+def textOrPanic : Option (List Char) → String
+  | some t => encText t
+  | none => "panic"
+
+/-- significant digits of a literal: digits of `before ++ after` without leading zeros -/
+def sigDigits (ds : List Char) : Nat := (ds.dropWhile (· == '0')).length
+
+def handle (args : List Sexp) : String :=
+  match args with
+  | [.atom "num", n, c, e] =>
+    match decOfArgs [n, c, e] with
+    | none => "(error bad-number)"
+    | some d =>
+      let p := plain d
+      let v := match p with
+        | some t => verdicts t d
+        | none => "false false false err"
+      s!"(num {encText (toSci d)} {textOrPanic p} {v})"
+  | [.atom "judge", n, c, e, t] =>
+    match decOfArgs [n, c, e], Sexp.chars? t with
+    | some d, some t => s!"(judge {verdicts t d})"
+    | _, _ => "(error bad-judge)"
+  | [.atom "parse", t] =>
+    match Sexp.chars? t with
+    | none => "(error bad-text)"
+    | some t =>
+      let r := ofString t
+      s!"(parse {showR r} {textOrPanic (plainR r)})"
+  | [.atom "literal", b, a] =>
+    match Sexp.chars? b, Sexp.chars? a with
+    | some b, some a =>
+      let r := ofLiteral b a
+      let exact := match r with
+        | some d => denotes (false, readNat (b ++ a), a.length) d
+        | none => false
+      s!"(literal {showOpt r} {boolStr exact} {boolStr (sigDigits (b ++ a) ≤ 34)})"
+    | _, _ => "(error bad-literal)"
+  | _ => "(error bad-request)"
 
 end Dmn.Driver.C07
